@@ -139,4 +139,100 @@ def obligations():
         good = (v[:1] == ("callres",) and v[2] == "self.tree_.predict" and len(v[3]) == 1 and v[3][0][2] == "check_array")
         ob(Kauri, "predict", "== tree_.predict(check_array(X))", good, {"ret": fx.show(v)})
         ob(Kauri, "predict", "check_is_fitted(self) first", _first_call_is_check_fitted(st))
+    # Kauri.score: the compiled kernel-KMeans objective of the predicted labels (it sums over the clusters PRESENT in the batch)
+    it, rets, allp = _one_return(Kauri, "score", lambda o, m: False)
+    for st in rets:
+        v = st.ret
+        cs = [e for e in st.events if e[0] == "call"]
+        pr = [e for e in cs if e[2] == "self.predict"]
+        ck = [e for e in cs if e[2] == "self._compute_kernel"]
+        good = (len(pr) == 1 and len(ck) == 1 and pr[0][3] == (("var", "X"),) and ck[0][3] == (("var", "X"), ("var", "y"))
+                and fx.strip(v) == fx.strip(("callres", None, "gemini_objective", (("callres", pr[0][1], "self.predict", pr[0][3], pr[0][4]),
+                                                                                      ("callres", ck[0][1], "self._compute_kernel", ck[0][3], ck[0][4])), ())))
+        ob(Kauri, "score", "== gemini_objective(self.predict(X), self._compute_kernel(X, y))", good, {"ret": fx.show(v)[:200]})
+    obs += kauri_score_native()
+    return obs
+
+
+def kauri_score_native(seed=0):
+    """B: Kauri.score on sub-batches (clusters absent from the batch, one-sample batches) against the objective written with plain loops"""
+    import warnings
+    from gemclus.tree import Kauri
+    rs = np.random.RandomState(seed)
+    X = np.vstack([rs.normal(size=(12, 2)) + c for c in ([0, 0], [6, 0], [0, 6], [6, 6])])
+    bad = None
+    try:
+        with warnings.catch_warnings():
+            warnings.simplefilter("ignore")
+            m = Kauri(max_clusters=4, kernel="linear", random_state=seed).fit(X)
+            lab = m.labels_
+            batches = [np.arange(len(X))] + [np.flatnonzero(np.isin(lab, ks)) for ks in ([1, 2], [3], [0, 3], [2, 3], [1])] + [np.array([5]), np.array([40])]
+            for idx in batches:
+                if len(idx) == 0:
+                    continue
+                Xb = X[idx]
+                yp = m.predict(Xb)
+                Kb = Xb @ Xb.T
+                ref = 0.0
+                for k in set(int(v) for v in yp):
+                    mem = [i for i in range(len(yp)) if yp[i] == k]
+                    ref += sum(Kb[i, j] for i in mem for j in mem) / len(mem)
+                got = m.score(Xb)
+                if not (np.isfinite(got) and abs(got - ref) <= 1e-8 * (1 + abs(ref))) and bad is None:
+                    bad = {"batch rows": [int(i) for i in idx[:10]], "clusters in the batch": sorted(set(int(v) for v in yp)), "score": float(got), "objective": float(ref)}
+    except Exception as e:
+        bad = {"exception": repr(e)[:200]}
+    return [Ob("Kauri.score on sub-batches (clusters absent, single samples) == kernel-KMeans objective of predict(X) computed with plain loops",
+               PROVED if bad is None else REFUTED, "native", "B", dict(bad or {}, replayed=bad is not None), fn="gemclus.tree.kauri.Kauri.score")]
+
+
+
+def infer_frame():
+    """FX frame of every _infer (all estimators, all paths): the forward pass reads only constructor options, the learnt parameters
+    (the attributes _init_params creates) and what it wrote itself earlier in the same call -- nothing cached by an earlier call
+    (a cache that survives set_params or a refit makes predictions depend on history)."""
+    import inspect
+    from .fit_loop import gradient_estimators
+    obs = []
+    for cls in gradient_estimators():
+        fn = f"{cls.__module__}.{cls.__name__}._infer"
+        hp = set(inspect.signature(cls.__init__).parameters) - {"self"}
+        try:
+            ini = fx.Interp(cls, inline_filter=lambda o, m: True, max_depth=6).run_method("_init_params")
+            sts = fx.Interp(cls, inline_filter=lambda o, m: True, max_depth=6).run_method("_infer")
+        except fx.FxUnsupported as e:
+            obs.append(Ob(f"{cls.__name__}._infer: frame analysable", UNDECIDED, "fx", "P", {"why": str(e)}, fn=fn))
+            continue
+        learnt = {e[2] for st in ini for e in st.events if e[0] == "store" and e[1] == SELF}
+        # helper methods the forward pass reaches through closures / map / reduce are interpreted on their own
+        import re
+        todo, helpers = ["_infer"], []
+        while todo:
+            src = inspect.getsource(getattr(cls, todo.pop()))
+            for nm in re.findall(r"self\.(_[A-Za-z]\w*)\b", src):
+                if nm not in helpers and nm != "_infer" and inspect.isfunction(getattr(cls, nm, None)):
+                    helpers.append(nm)
+                    todo.append(nm)
+        helper_writes = set()
+        for nm in helpers:
+            try:
+                hs = fx.Interp(cls, inline_filter=lambda o, m: True, max_depth=6).run_method(nm)
+            except fx.FxUnsupported:
+                continue
+            sts = sts + hs
+            helper_writes |= {e[2] for st in hs for e in st.events if e[0] == "store" and e[1] == SELF}
+        pre, hidden = set(helper_writes), set()          # a helper of the forward pass that writes on the estimator is a cache
+        for st in sts:
+            seen = set()
+            for e in st.events:
+                if e[0] == "store" and e[1] == SELF:
+                    seen.add(e[2])
+                if e[0] == "read" and e[1] == SELF and e[2] not in seen and not callable(getattr(cls, e[2], None)):
+                    pre.add(e[2])
+                if e[0] == "call" and e[2] in ("getattr", "hasattr") and len(e[3]) >= 2 and e[3][0] == SELF and fx.is_const(e[3][1]) \
+                        and e[3][1][1] not in seen:
+                    hidden.add(str(e[3][1][1]))
+        state = sorted((pre | hidden) - hp - learnt - {"n_clusters"})
+        obs.append(Ob(f"{cls.__name__}._infer: reads only constructor options, learnt parameters and state written earlier in the same call",
+                      PROVED if sts and learnt and not state else REFUTED, "fx-frame", "P", {"state read or cached": state, "learnt parameters": sorted(learnt), "helpers": helpers}, fn=fn))
     return obs
